@@ -190,6 +190,7 @@ pub fn run(scn: &Value) -> Value {
     let built = build(req, &t, seed);
     let mut o = match req["delivery"].as_str().unwrap_or("whole") {
         "after" => observe_after(req, &t, &built, vec![built.bytes.clone()], true),
+        "followed" => { let mut b = built.bytes.clone(); b.extend_from_slice(b"POST /next/one?k1=next HTTP/1.1\r\nHost: next.example\r\nContent-Length: 4\r\n\r\nNEXT"); observe(req, &t, &built, vec![b]) }
         "split" => {
             // every cut of the head (and a little beyond) into two reads; the first one whose outcome differs from the uncut delivery is reported
             let whole = observe(req, &t, &built, vec![built.bytes.clone()]);
@@ -233,5 +234,5 @@ pub fn gen(rng: &mut Rng, i: usize) -> Value {
     let needs_hdr = ["trunc-header-name", "trunc-header-value", "header-no-colon", "nul-in-header-value", "nonutf8-in-header-value", "header-line-too-long"];
     if (needs_body.contains(&fault) && s(&body["size"]) == "none") || (needs_hdr.contains(&fault) && headers.is_empty()) { fault = "none" }
     json!({"id": i, "seed": rng.next() % 1000, "req": {"phase": "end", "method": m, "segs": segs, "trailing": nseg > 0 && rng.chance(1, 4), "query": query, "hasq": hasq,
-           "headers": headers, "body": body, "fault": fault, "delivery": *rng.pick(&["whole", "whole", "whole", "split", "after"])}})
+           "headers": headers, "body": body, "fault": fault, "delivery": if fault == "none" { *rng.pick(&["whole", "whole", "split", "after", "followed"]) } else { *rng.pick(&["whole", "whole", "whole", "split", "after"]) }}})
 }
